@@ -9,21 +9,28 @@ impl DeclarationElsewhere {
         &self,
         tlds: &'a BTreeMap<String, ToplevelDefinition>,
     ) -> Result<&'a ASN1Type, GrammarError> {
-        match tlds.get(&self.identifier).ok_or_else(|| GrammarError::new(
-            &format!("Failed to resolve reference of ElsewhereDefined: {}", self.identifier),
-            super::GrammarErrorType::LinkerError
-        ))? {
-            ToplevelDefinition::Type(ToplevelTypeDefinition { ty: ASN1Type::ElsewhereDeclaredType(e), .. }) => e.root(tlds),
-            ToplevelDefinition::Type(ToplevelTypeDefinition { ty, .. }) => Ok(ty),
-            ToplevelDefinition::Class(_) => Err(GrammarError::todo()),
-            ToplevelDefinition::Object(_) => Err(GrammarError::todo()),
-            _ => Err(GrammarError::new(
-                &format!(
-                    "Unexpectedly found a value definition resolving reference of ElsewhereDefined: {}",
-                    self.identifier
-                ),
+        let mut identifier = &self.identifier;
+        // An alias chain without a cycle is at most as long as there are definitions
+        for _ in 0..=tlds.len() {
+            match tlds.get(identifier).ok_or_else(|| GrammarError::new(
+                &format!("Failed to resolve reference of ElsewhereDefined: {identifier}"),
                 super::GrammarErrorType::LinkerError
-            ))
+            ))? {
+                ToplevelDefinition::Type(ToplevelTypeDefinition { ty: ASN1Type::ElsewhereDeclaredType(e), .. }) => identifier = &e.identifier,
+                ToplevelDefinition::Type(ToplevelTypeDefinition { ty, .. }) => return Ok(ty),
+                ToplevelDefinition::Class(_) => return Err(GrammarError::todo()),
+                ToplevelDefinition::Object(_) => return Err(GrammarError::todo()),
+                _ => return Err(GrammarError::new(
+                    &format!(
+                        "Unexpectedly found a value definition resolving reference of ElsewhereDefined: {identifier}"
+                    ),
+                    super::GrammarErrorType::LinkerError
+                ))
+            }
         }
+        Err(GrammarError::new(
+            &format!("Type {} is defined in terms of itself.", self.identifier),
+            super::GrammarErrorType::LinkerError
+        ))
     }
 }
